@@ -269,6 +269,16 @@ def pyChecks (fuel : Nat) (cfg : KVs) : FR Unit := do
   dsts.forM fun (n, dv) => match dv with
     | .map d => createDst fuel clocks n d
     | _ => Except.error (.crash "AttributeError: data stream type node")
+  -- no two generated C functions with the same name
+  let fnames : List String := dsts.flatMap fun (n, dv) =>
+    [n ++ "_open_packet", n ++ "_close_packet"] ++
+    (match dv with
+     | .map d => match kvGet "event-record-types" d with
+       | some (.map em) => em.map fun (en, _) => n ++ "_trace_" ++ en
+       | _ => []
+     | _ => [])
+  if fnames.eraseDups.length ≠ fnames.length then
+    Except.error (.other "Generated C function name is ambiguous")
   -- environment variable names
   match kvGetNN "environment" tr with
   | none => pure ()
